@@ -152,6 +152,7 @@ class Run(Stats):
     # ---- known findings -------------------------------------------------
     def prime(self, mod):
         """Replay the example of every listed finding before the search starts."""
+        later = []      # failures of examples under a signature other than their entry's: judged once every open entry is loaded
         for e in self.entries:
             sig = norm_sig(e["sig"])
             status = e.get("status", "open")
@@ -168,10 +169,15 @@ class Run(Stats):
                 else:
                     self.resolved.append({"sig": list(sig), "now": jsonable(r)})
                     if r is not None:
-                        self.record(r[0], r[1], e["example"])
+                        later.append((r[0], r[1], e["example"]))
             else:  # fixed: suppresses nothing; its example is a regression input
                 if r is not None:
-                    self.record(r[0], r[1], e["example"])
+                    if norm_sig(r[0]) == sig:
+                        self.record(r[0], r[1], e["example"])
+                    else:
+                        later.append((r[0], r[1], e["example"]))
+        for s_, d_, c_ in later:
+            self.note(s_, d_, c_)
         # committed regression inputs
         d = os.path.join(HERE, "replays", self.pid)
         if os.path.isdir(d):
